@@ -222,6 +222,9 @@ pub fn run(prop: &str, tier: &str, seed: u64, outfile: &str) {
         }
     }
     gen_structured(&mut out, &mut rng, thorough, prop);
+    if matches!(prop, "C01" | "C02" | "C07") {
+        crate::unitops::gen_padlike_builds(&mut out, &mut rng, thorough);
+    }
     if matches!(prop, "C01" | "C02" | "C04" | "C05" | "C06" | "C07" | "C09" | "C10" | "C15") {
         gen_ladders(&mut out, &mut rng, thorough, prop);
     }
